@@ -16,8 +16,10 @@ PROPS = {
                       "with loop invariants. Loop invariant of the three loops (k >= 1): the local data are sweep(D) updated with unpack(T), T the output of the "
                       "(abstract) sequence transformer fed with (pack(sweep(D)), residual vector) resp. (y(D) + Newton step, Newton step) for Newton-Raphson. "
                       "_stop_criterion_is_reached / _warn_convergence_criteria: true iff the norm just computed <= tolerance or max_mda_iter <= counter. "
-                      "_compute_normalized_residual_norm: the scaling table, one verified variant per ResidualScaling member except INITIAL_SUBRESIDUAL_NORM "
-                      "(NO_SCALING ||R||; INITIAL_RESIDUAL_NORM ||R||/ref, ref = ||R_first|| or 1; N_COUPLING_VARIABLES ||R||/sqrt(size R_first); "
+                      "_compute_normalized_residual_norm: the scaling table, one verified variant per ResidualScaling member "
+                      "(INITIAL_SUBRESIDUAL_NORM: the reference is exactly one (slice, ||R_first[slice]|| or 1.0 when that is 0) pair per resolved variable - nested "
+                      "loop invariants over the converter -> names-to-slices map -, the normed residual is the MAX over ALL pairs of ||R[slice]|| / reference, so every "
+                      "resolved variable is monitored; NO_SCALING ||R||; INITIAL_RESIDUAL_NORM ||R||/ref, ref = ||R_first|| or 1; N_COUPLING_VARIABLES ||R||/sqrt(size R_first); "
                       "INITIAL_RESIDUAL_COMPONENT max|R/ref|, ref = R_first + (R_first == 0); SCALED_INITIAL_RESIDUAL_COMPONENT ||R/ref||/sqrt(size R)): the "
                       "reference is fixed the first time the function runs with _scaling_data None and NEVER changes afterwards (also across executions), "
                       "history / starting indices / counter / local-data item as coded; an unknown scaling value raises ValueError. _compute_residuals (nested "
@@ -62,7 +64,6 @@ PROPS = {
                         "float64 arithmetic read as real arithmetic; nan / inf not modelled"],
         "not_covered": ["CONVERGENCE: that any loop ever meets the tolerance criterion; agreement of the algorithms with each other / with the exact solution; independence of the solution from acceleration, relaxation, warm start, scaling, discipline order",
                         "that re-executing a discipline on the returned data reproduces the returned outputs to within the tolerance (needs contractivity; the code guarantees the one-sweep-back statement above)",
-                        "ResidualScaling.INITIAL_SUBRESIDUAL_NORM (three loops over lists of (slice, norm) pairs)",
                         "MDAs WITHOUT resolved variables (degenerate: nan / ZeroDivisionError / ValueError depending on the scaling - native replay in level_note)",
                         "MDAQuasiNewton._execute and its nested Jacobian / callback functions (scipy.optimize.root calls back an unknown number of times), MDAGSNewton.__init__, MDAChain (C08/C09), parallel execution of the disciplines (C13)",
                         "the sequence transformers themselves (relaxation / acceleration formulas), the vector <-> data conversions, __compute_names_to_slices, _set_resolved_variables, _check_coupling_types, _prepare_warm_start",
@@ -1118,9 +1119,9 @@ PROPS["C19"] = {
                   "sigma_l^2/2 (log / sqrt uninterpreted, ground instances of their usual axioms), lemma: the law with these parameters shifted by location has mean mu and variance "
                   "sigma^2 (exp(log t) = t, exp(a+b) = exp(a)exp(b)); SPLogNormalDistribution forwards lognorm(s=sigma_l, loc=location, scale=exp(mu_l)), OTLogNormalDistribution "
                   "LogNormal(mu_l, sigma_l, location). REPAIRED in /repo bc82ce9 (found here): normalize_vect / unnormalize_vect dropped `minus_lb` (normalize_grad / unnormalize_grad of a "
-                  "ParameterSpace were wrong); the deterministic blocks are now proved to be those of the design-space map WITH THE GIVEN minus_lb. KNOWN FINDING "
-                  "(known_findings.json, region last-uncertain-variable-removed): remove_variable leaves `distribution` describing the removed variable when the LAST uncertain "
-                  "variable is removed (compute_samples still samples it).",
+                  "ParameterSpace were wrong); the deterministic blocks are now proved to be those of the design-space map WITH THE GIVEN minus_lb. REPAIRED in /repo 910a44a (found here): remove_variable left `distribution` describing the removed variable when the "
+                  "LAST uncertain variable was removed (compute_samples went on sampling it); it is now proved to be None when no uncertain variable remains and the joint of exactly "
+                  "the remaining ones otherwise.",
     "level_note": "Trusted: pyvc, z3 (floats read as reals; infinite bounds are tags), pyvc/plug_c19.py. ASSUMED - this IS the third-party part: a wrapped SciPy / OpenTURNS "
                   "distribution object is an abstract record; cdf / ppf / pdf / mean / std / interval (computeCDF / computeQuantile / computePDF / getMean / getStandardDeviation / "
                   "getRange) are deterministic uninterpreted functions of the object and the argument without side effect; every sampler call (rvs / getSample) returns a new array of the "
